@@ -101,7 +101,7 @@ def cases(tier, seed):
     for rep in range(reps):
         for dv in dvs:
             spec = M.random_spec(rng, half="left", nx=int(rng.integers(2, 4)), ny=int(rng.integers(3, 8)))
-            spec.update(camber=0.0, twist_tip_deg=0.0, dihedral_deg=0.0)
+            spec.update(camber=0.0, twist_tip_deg=0.0, dihedral_deg=0.0 if rep % 2 == 0 else float(np.round(rng.uniform(3, 10), 2)))
             ncp = int(rng.integers(1, 5))
             val = dict(span=float(np.round(spec["span"] * rng.uniform(0.6, 1.6), 3)), sweep=float(np.round(rng.uniform(5, 30), 2)),
                        dihedral=float(np.round(rng.uniform(3, 12), 2)), taper=float(np.round(rng.uniform(0.3, 0.8), 3))).get(dv)
@@ -282,7 +282,7 @@ def run_dv_halves(c, o):
     pr = run_geometry(sr)
     ml = np.array(pl.get_val("mesh"))
     mr = np.array(pr.get_val("mesh"))
-    tags = ["dv=" + dv.replace("_cp", ""), "full_span_mesh" if full else "right_half_mesh"]
+    tags = ["dv=" + dv.replace("_cp", ""), "full_span_mesh" if full else "right_half_mesh"] + (["axis_dihedral"] if abs(c["mesh"].get("dihedral_deg", 0.0)) > 0 else [])
     o.close("dv_halves/mesh", mr, M.mirror(ml), rtol=1e-11, scale=np.abs(ml).max(), tags=tags,
             what=("%s on the mirror image of a full-span wing vs the mirror image of the result" if full else "%s on a right-half mesh vs the mirror image of the left-half result") % dv)
     o.nontrivial = bool(np.abs(ml - mesh).max() > 1e-6)
